@@ -2,6 +2,7 @@ SPECIFICATION Spec
 CONSTANTS
   ClosesPipeOnBuildError = TRUE
   ClosesFilesOnParamsError = TRUE
+  CancelsBeforeClose = FALSE
   ClosesFilesOnFieldError = FALSE
   FileLen = 2
   RespLen = 2
